@@ -38,7 +38,8 @@ impl Property for C06 {
         for i in 0..n {
             let w = world_for(seed, 0xC06_0000, i);
             let mvt = [MatrixVectorTypes::Rust, MatrixVectorTypes::Glam, MatrixVectorTypes::Nalgebra][i % 3];
-            let mut opts = WriteOptions { matrix_vector_types: mvt, derive_encase_host_shareable: w.has_runtime || i % 4 == 0, derive_serde: i % 7 == 0, ..Default::default() };
+            let mut opts = WriteOptions { matrix_vector_types: mvt, derive_encase_host_shareable: w.has_runtime || i % 4 == 0, derive_serde: i % 7 == 0,
+                derive_bytemuck_host_shareable: !w.has_runtime && i % 5 < 2, derive_bytemuck_vertex: i % 5 == 1, ..Default::default() };
             opts.validate = if i % 3 == 1 { Some(Default::default()) } else { None };
             // cross-check the two type tables on every emitted struct
             if let Ok(m) = naga_parse(&w.wgsl) {
